@@ -22,7 +22,7 @@ def b(s):
     return list(s.encode("utf-8"))
 
 
-def arg(id, short=None, long=None, aliases=(), action="", num=None, required=False, glob=False, last=False,
+def arg(id, short=None, long=None, aliases=(), valiases=(), action="", num=None, required=False, glob=False, last=False,
         tva=False, hyphen=False, negnum=False, req_eq=False, delim=None, term=None, defaults=(), missing=(),
         default_ifs=(), env=None, exclusive=False, conflicts=(), overrides=(), requires=(), requires_ifs=(),
         req_if_eq=(), req_if_eq_all=(), req_unless=(), req_unless_all=(), ignore_case=False, vp=None, index=0,
@@ -30,7 +30,8 @@ def arg(id, short=None, long=None, aliases=(), action="", num=None, required=Fal
     """num: None (unset) or (min, max) with max None = unbounded."""
     a = {
         "id": id, "idb": b(id), "short": b(short) if short else [], "long": b(long) if long else [],
-        "aliases": [b(x) for x in aliases], "action": action,
+        # aliases: every alias the parser answers to; valiases: the visible ones among them (Arg::visible_alias)
+        "aliases": [b(x) for x in aliases] + [b(x) for x in valiases], "valiases": [b(x) for x in valiases], "action": action,
         "nset": num is not None, "nmin": num[0] if num else 0, "nmax": (INF if num[1] is None else num[1]) if num else 0,
         "required": required, "global": glob, "last": last, "tva": tva, "hyphen": hyphen, "negnum": negnum,
         "req_eq": req_eq, "delim": ord(delim) if delim else 0, "term": b(term) if term else [],
@@ -254,6 +255,9 @@ def f_core():
     add("hyphen-pos+opt", cmd("p", [arg("o", "o", "opt"), arg("m", "m", "multi", num=(1, 2)), arg("p1", hyphen=True, num=(0, None))]), extra=["--zz=1"])
     add("negnum-pos", cmd("p", [arg("f", "f", action="SetTrue"), arg("n", "n", "num", negnum=True), arg("p1", negnum=True)]), extra=["-1.5", "-1e3"])
     add("aliases", cmd("p", [arg("o", "o", "opt", aliases=["alt", "other"]), arg("f", "f", "flag", aliases=["fl"], action="SetTrue")]))
+    add("visible-alias-option", cmd("p", [arg("mode", "m", "mode", valiases=["kind"], aliases=["md"]), arg("verbose", None, "verbose", valiases=["chatty"], action="SetTrue")],
+                                    subs=[cmd("build", [arg("release", None, "release", action="SetTrue")])]),
+        extra=["--kind", "build", "--kind=build", "--chatty", "--md", "--ki"])
     add("hidden-alias-vs-visible", cmd("p", [arg("colour", "c", "colour", aliases=["output-colour"], action="SetTrue"), arg("output", "o", "output")]),
         extra=["--out", "--output-c", "--col"])
     add("infer-long", cmd("p", [arg("v1", long="verbose", action="SetTrue"), arg("v2", long="version2", action="SetTrue"),
